@@ -9,25 +9,26 @@ from vlib.verdict import Case
 
 PROPERTY = 'C08'
 MANIFEST = {
- 'level_text': 'Lean 4 theorems, kernel-checked, about an executable model of irclib.Irc\'s CAP/SASL/registration machine (every handler with its exceptions and partial effects; FSM states, guards and expect_state lists, REQUEST_CAPABILITIES, _nickSetters, line/chunk sizes regenerated from /repo on every run). Proved for every state, configuration and server message, resp. for every history of messages and resets: req_subset and echo_needs_label (each word of a CAP REQ line is advertised and wanted; echo-message only next to labeled-response); sasl_payload_invited / sasl_after_ack / sasl_entered_by_ack (credentials only as the answer to a server AUTHENTICATE inside INIT_SASL/CONNECTED_SASL, which is entered only while handling CAP ACK/NAK with sasl acknowledged); cap_end_once / cap_end_counted / cap_end_from_negotiation (at most one CAP END per connection epoch, none while an authentication is in progress); progress (deadlock-freedom of the bot against a formally defined conformant server, by a joint invariant over all joint histories: connected, or deliberately aborted, or the server still owes an answer); reset_fresh and epoch_clean (after Irc.reset every CAP/SASL/FSM/nick field and both queues equal those of a new Irc; with the real SocketDriver a new socket is only opened right after such a reset, the rest of the old recv chunk is dropped). chunks_terminate (authenticate_generator: full-size lines, then one final line shorter than the chunk size or `+`, spelling the text) is what progress rests on for the credentials. The statement "no CAP REQ outstanding at CAP END" is false for servers sending CAP NEW/DEL mid-negotiation: known finding with a Lean counter-example (cap_end_outstanding_witness) and the true part proved (cap_end_nothing_outstanding_partial: against a conformant server every requested capability is answered once CAP END is sent). An executable acceptor of the conformant-server relation, proved sound, lets the harness ask Lean whether each conformant script lies inside the domain of progress. The model is tied to the code by a differential correspondence run after every message (stub driver: adversarial, state-aware and conformant server scripts; real SocketDriver over a fake socket) which also evaluates the property statement on the implementation\'s own takeMsg stream.',
- 'level_note': 'Trusted: Lean kernel, axioms propext/Classical.choice/Quot.sound only; harness/extractors/conn.py; the correspondence harness (generators bound what it sees; IrcMsg parsing supplies command/args/nick, property C05). Modelled and proved about: feedMsg dispatch, _nickSetters, reset/_setNonResettingVariables/resetSasl/_queueConnectMessages, capUpkeep, endCapabilityNegociation, tryNextSaslMechanism, _maybeStartSasl, doAuthenticate (plain, external, ecdsa with the signature as a parameter), AuthenticateDecoder/authenticate_generator incl. which inputs base64 rejects, do903-908, doCapLs/Ack/Nak/New/Del, _addCapabilities, _onCapSts, _requestCaps (textwrap as greedy word fill), _getNextNick/do43x, do375/376/377/422, doPing, doError, doNick; SocketDriver.reconnect/_read loop/_sendIfMsgs as far as resets and sockets are concerned. cap_end_once / sasl_after_ack also hold along every real-driver history (DReach). progress: stub-driver semantics (an abort ends the epoch), each CAP REQ answered by one ACK or NAK of the same list (split answers only exercised by the generators), at most 4300-digit integers, ASCII commands. Not modelled: scram (library absent), user modes, zombie objects, requireStarttls, TLS itself, the random digits of the fallback nick (compared as a wildcard), Owner.do376 beyond "queues JOINs". Ghost fields endCount/saslAcked/epoch are defined by the model and not observable in the implementation.',
+ 'level_text': "Lean 4 theorems, kernel-checked, about an executable model of irclib.Irc's CAP/SASL/registration machine (every handler with its exceptions and partial effects; FSM states, guards and expect_state lists, REQUEST_CAPABILITIES, _nickSetters, line/chunk sizes regenerated from /repo on every run). Proved for every state, configuration and server message, resp. for every history of messages and resets: req_subset and echo_needs_label (each word of a CAP REQ line is advertised and wanted; echo-message only next to labeled-response); wanted_bounded / wanted_rebuilt (the object's own REQUEST_CAPABILITIES is rebuilt from the class-level set at every reset: sasl exactly when this network has a usable mechanism); sasl_payload_invited / sasl_after_ack / sasl_entered_by_ack (credentials only as the answer to a server AUTHENTICATE inside INIT_SASL/CONNECTED_SASL, which is entered only while handling CAP ACK/NAK with sasl acknowledged); cap_end_once / cap_end_counted / cap_end_from_negotiation (at most one CAP END per connection epoch, none while an authentication is in progress); progress (deadlock-freedom of the bot against a formally defined conformant server, by a joint invariant over all joint histories: connected, or deliberately aborted, or the server still owes an answer, or the situation of finding C08-req-after-end). The conformant server of progress answers the oldest unanswered CAP REQ by ACK/NAK lines that each take some of its words (single or split answers, any order), acknowledges only what it advertises, may send CAP NEW and CAP DEL at any time after the final CAP LS, sends at most three AUTHENTICATE per mechanism, answers AUTHENTICATE * by a failure numeric, and treats a CAP REQ of an unregistered client as suspending the registration; kR6 is a concrete joint history with a split answer, a CAP NEW and a CAP DEL inside the negotiation. reset_fresh and epoch_clean (after Irc.reset every CAP/SASL/FSM/nick field, REQUEST_CAPABILITIES and both queues equal those of a new Irc; with the real SocketDriver a new socket is only opened right after such a reset, the rest of the old recv chunk is dropped). chunks_terminate (authenticate_generator: full-size lines, then one final line shorter than the chunk size or `+`) is what progress rests on for the credentials. join_needs_motd_end / join_only_after_motd_real: Owner's JOINs are queued only by the step in which Irc.do376 completed or dropped the connection, and along every real-driver history no JOIN is written to a socket while afterConnect is unset. sts_no_downgrade_real: along every real-driver history, while connected to a host with a stored STS policy the connection is forced-verified TLS (or ssl with the operator's own validation). Two statements are false on the code and recorded as findings with Lean counter-examples: 'no CAP REQ outstanding at CAP END' (cap_end_outstanding_witness; true parts cap_end_nothing_outstanding_partial - nothing outstanding unless a CAP NEW arrived after a mechanism was requested - and cap_requests_accounted) and progress after a CAP NEW between CAP END and the welcome (req_after_end_witness). An executable acceptor of the conformant-server relation, proved sound, lets the harness ask Lean whether each conformant script lies inside the domain of progress. The model is tied to the code by a differential correspondence run after every message (stub driver: adversarial, state-aware and conformant server scripts, configuration changes at run time; real SocketDriver over a fake socket) which also evaluates the property statement on the implementation's own takeMsg stream.",
+ 'level_note': "Trusted: Lean kernel, axioms propext/Classical.choice/Quot.sound only; harness/extractors/conn.py; the correspondence harness (generators bound what it sees; IrcMsg parsing supplies command/args/nick, property C05). Modelled and proved about: feedMsg dispatch, _nickSetters, reset/_setNonResettingVariables/resetSasl/_queueConnectMessages, capUpkeep, endCapabilityNegociation, tryNextSaslMechanism, _maybeStartSasl, doAuthenticate (plain, external, ecdsa with the signature as a parameter, scram-* with the library calls as parameters: step machine, unsupported hash, rejected challenge, bad server signature), sasl_response_sent, AuthenticateDecoder/authenticate_generator incl. which inputs base64 rejects, do903-908, doCapLs/Ack/Nak/New/Del, _addCapabilities, _onCapSts, _requestCaps (textwrap as greedy word fill), _getNextNick/do43x, do375/376/377/422 and Owner.do376/377/422, doPing, doError, doNick; SocketDriver.reconnect/_read loop/_sendIfMsgs as far as resets, sockets, the JOIN flag and the STS store are concerned. cap_end_once / sasl_after_ack / join / sts_no_downgrade also hold along every real-driver history (DReach). progress: stub-driver semantics (an abort ends the epoch), lock-step (the server sees the reaction to a line before it sends the next), at most 4300-digit integers, ASCII commands. pyxmpp2_scram is absent here: the SCRAM control flow of irclib is driven with a stand-in object exposing the same interface, whose answers are the model's parameters. Not modelled: user modes, zombie objects, requireStarttls, TLS itself, the random digits of the fallback nick (compared as a wildcard). Ghost fields endCount/saslAcked/epoch/joinBad are defined by the model and not observable in the implementation.",
  'technique': 'Lean 4 proof (refinement of every model function to an abstract move system + invariants by induction over arbitrary server message sequences; deadlock-freedom against a formal conformant-server relation) + table extraction + differential correspondence (stub driver and real SocketDriver over a fake socket)',
  'design_ref': 'DESIGN.md §6 C08',
 }
-THEOREMS = ['C08.req_subset', 'C08.wanted_bounded', 'C08.echo_needs_label', 'C08.sasl_payload_invited',
+THEOREMS = ['C08.req_subset', 'C08.wanted_bounded', 'C08.wanted_rebuilt', 'C08.echo_needs_label', 'C08.sasl_payload_invited',
             'C08.sasl_entered_by_ack', 'C08.sasl_after_ack', 'C08.saslAcked_only_by_ack', 'C08.cap_end_once',
             'C08.cap_end_counted', 'C08.cap_end_from_negotiation', 'C08.cap_end_outstanding_witness', 'C08.reset_fresh',
             'C08.epoch_clean', 'C08.epoch_clean_scheduled', 'C08.new_socket_only_by_error', 'C08.feedLines_stops', 'C08.flush_wire',
-            'C08.progress', 'C08.no_stuck_state', 'C08.jR11', 'C08.srvMoveB_sound',
-            'C08.cap_end_nothing_outstanding_partial', 'C08.chunks_terminate', 'C08.sasl_answer_complete',
-            'C08.cap_end_once_real', 'C08.sasl_after_ack_real']
+            'C08.progress', 'C08.no_stuck_state', 'C08.jR11', 'C08.kR6', 'C08.req_after_end_witness', 'C08.srvMoveB_sound',
+            'C08.cap_end_nothing_outstanding_partial', 'C08.cap_requests_accounted', 'C08.chunks_terminate', 'C08.sasl_answer_complete',
+            'C08.cap_end_once_real', 'C08.sasl_after_ack_real', 'C08.join_needs_motd_end', 'C08.join_only_after_motd_real',
+            'C08.joinBad_flush', 'C08.sts_no_downgrade_real']
 TRUSTED = ['Lean 4.33.0 kernel; axioms ⊆ {propext, Classical.choice, Quot.sound}',
            'harness/extractors/conn.py (FSM states and guards, expect_state lists, REQUEST_CAPABILITIES, _nickSetters, MAX_LINE_SIZE, AUTHENTICATE_CHUNK_SIZE → Gen/Conn.lean)',
            'harness/c08.py: script generators, stub driver, canonical observation, hex line protocol',
            'IrcMsg parsing of the generated server lines (property C05) supplies command/args/nick to the model']
 ASSUMPTIONS = ['Python asserts enabled', 'commands, capability names, mechanism names and nicks are ASCII; nick alphabet invariant under rfc1459 case folding',
                'msg.prefix never equals the bot nick (the oftc nick-instead-of-prefix rewrite is not modelled)',
-               'pyxmpp2_scram is not installed (scram mechanisms never become available)',
+               'pyxmpp2_scram is not installed: irclib.scram is replaced by a stand-in with the interface irclib uses (HASH_FACTORIES, SCRAMClientAuthenticator.start/challenge/finish, ScramException, BadSuccessException) whose answers are parameters of the run',
                'user modes, PASS-less ident defaults, requireStarttls and zombie Irc objects are outside the model']
 
 SERVER = 'irc.test'
@@ -952,6 +953,8 @@ def safety_oracle(ops, obs, cfg=None):
                             bad.append(('req_subset', 'CAP REQ %r asks for sasl although this network\'s configuration offers no usable mechanism (mechanisms=%r)' % (m.args, full_cfg(cfg_epoch)['mechs'])))
                     if 'echo-message' in words and 'labeled-response' not in words and 'labeled-response' not in prev.ack:
                         bad.append(('echo_needs_label', 'CAP REQ %r requests echo-message without labeled-response (ack=%r)' % (m.args, sorted(prev.ack))))
+                if m.command == 'CAP' and m.args and m.args[0] == 'REQ' and ends and not welcomed:
+                    bad.append(('req_after_end', 'CAP REQ %r sent after CAP END while the registration is not complete: the server suspends the registration until another CAP END, which is never sent' % (m.args,)))
                 if m.command == 'CAP' and m.args and m.args[0] == 'END':
                     ends += 1
                     if ends > 1:
@@ -1124,7 +1127,8 @@ class ConfServer(object):
         self.ircv3 = r.random() < 0.9
         offered = [c for c in WANTED if r.random() < 0.5]
         if r.random() < 0.7:
-            offered.append(r.choice(['sasl', 'sasl=PLAIN', 'sasl=PLAIN,EXTERNAL', 'sasl=EXTERNAL', 'sasl=ECDSA-NIST256P-CHALLENGE,PLAIN']))
+            offered.append(r.choice(['sasl', 'sasl', 'sasl=PLAIN', 'sasl=PLAIN,EXTERNAL', 'sasl=EXTERNAL', 'sasl=ECDSA-NIST256P-CHALLENGE,PLAIN',
+                                     'sasl=SCRAM-SHA-256,PLAIN', 'sasl=SCRAM-SHA-1,SCRAM-SHA-256,SCRAM-SHA-512']))
         if r.random() < 0.3:
             offered += ['cap-notify', 'draft/foo=1']
         if r.random() < 0.08:
@@ -1135,7 +1139,12 @@ class ConfServer(object):
         self.offered = offered
         self.names = set(c.split('=')[0] for c in offered)
         mech = [c for c in offered if c.startswith('sasl')]
-        self.mechs = (mech[0].split('=')[1].split(',') if mech and '=' in mech[0] else ['PLAIN', 'EXTERNAL', 'ECDSA-NIST256P-CHALLENGE'])
+        self.mechs = (mech[0].split('=')[1].split(',') if mech and '=' in mech[0]
+                      else ['PLAIN', 'EXTERNAL', 'ECDSA-NIST256P-CHALLENGE', 'SCRAM-SHA-256', 'SCRAM-SHA-1', 'SCRAM-SHA-512', 'SCRAM-SHA-256-PLUS'])
+        # CAP NEW / CAP DEL during the registration (allowed once the CAP LS reply is out)
+        self.notify = r.choice([0, 0, 0, 0.05, 0.2])
+        self.ls_done = False
+        self.spare = [c for c in WANTED if c not in self.names]
         self.collisions = r.choice([0, 0, 0, 1, 2, 3, 4])
         self.auth_ok = r.random() < 0.6
         self.nak_prob = r.choice([0, 0, 0.3, 1])
@@ -1151,6 +1160,8 @@ class ConfServer(object):
         return bool(self.inq)
 
     def _welcome(self):
+        if any(m.command == 'CAP' and m.args[:1] == ('REQ',) for m in self.inq):
+            self.negotiating = True         # a CAP REQ of the unregistered client is on its way: registration suspended
         if self.nick is None or not self.user or self.negotiating or self.welcomed:
             return []
         self.welcomed = True
@@ -1164,8 +1175,37 @@ class ConfServer(object):
             out += [S + '422 %s :MOTD File is missing' % n]
         return out
 
+    def _notify(self, keep=()):
+        """maybe a CAP NEW / CAP DEL line; `keep` = capabilities an answer still to be sent acknowledges"""
+        r = self.r
+        if not (self.ircv3 and self.ls_done and not self.welcomed and r.random() < self.notify):
+            return []
+        S = ':' + SERVER + ' '; n = self.nick or '*'
+        if self.spare and r.random() < 0.6:
+            k = r.randint(1, min(2, len(self.spare)))
+            new = [self.spare.pop(r.randrange(len(self.spare))) for _ in range(k)]
+            self.names |= set(new)
+            return [S + 'CAP %s NEW :%s' % (n, ' '.join(new))]
+        cur = sorted(self.names - set(['sasl'] if self.auth else []) - set(keep))
+        if cur:
+            gone = r.sample(cur, min(len(cur), r.randint(1, 2)))
+            self.names -= set(gone); self.acked -= set(gone)
+            self.spare += [c for c in gone if c in WANTED]
+            return [S + 'CAP %s DEL :%s' % (n, ' '.join(gone))]
+        return []
+
     def step(self):
         """process the next client line; returns the server lines it causes"""
+        out = self._step()
+        if out and self.r.random() < 0.5:
+            # inside a split ACK / NAK answer, or after the batch; never inside the multi-line CAP LS reply
+            t0 = out[0].split(' ')
+            k = self.r.randint(0, len(out)) if (len(out) > 1 and t0[1:2] == ['CAP'] and t0[3:4] != ['LS']) else len(out)
+            keep = set(w.lstrip(':') for l in out[k:] if ' ACK ' in l for w in l.split(' ')[4:])
+            out = out[:k] + self._notify(keep) + out[k:]
+        return out
+
+    def _step(self):
         m = self.inq.pop(0)
         r = self.r
         S = ':' + SERVER + ' '
@@ -1176,6 +1216,7 @@ class ConfServer(object):
                 return []
             if a and a[0] == 'LS':
                 self.negotiating = not self.welcomed
+                self.ls_done = True
                 if len(self.offered) > 2 and r.random() < 0.4:
                     k = r.randint(1, len(self.offered) - 1)
                     return [S + 'CAP %s LS * :%s' % (n, ' '.join(self.offered[:k])), S + 'CAP %s LS :%s' % (n, ' '.join(self.offered[k:]))]
@@ -1185,10 +1226,16 @@ class ConfServer(object):
                 words = a[1].split() if len(a) > 1 else []
                 if all(w in self.names for w in words) and r.random() >= self.nak_prob:
                     self.acked |= set(words)
-                    if len(words) > 1 and r.random() < 0.15:
-                        k = r.randint(1, len(words) - 1)
-                        return [S + 'CAP %s ACK :%s' % (n, ' '.join(words[:k])), S + 'CAP %s ACK :%s' % (n, ' '.join(words[k:]))]
+                    if len(words) > 1 and r.random() < 0.2:
+                        # a split answer: the words spread over several ACK lines, in any order
+                        w2 = list(words); r.shuffle(w2)
+                        cuts = sorted(set(r.randint(1, len(w2) - 1) for _ in range(r.randint(1, 2))))
+                        parts = [w2[i:j] for i, j in zip([0] + cuts, cuts + [len(w2)])]
+                        return [S + 'CAP %s ACK :%s' % (n, ' '.join(p)) for p in parts]
                     return [S + 'CAP %s ACK :%s' % (n, ' '.join(words))]
+                if len(words) > 1 and r.random() < 0.1:
+                    k = r.randint(1, len(words) - 1)
+                    return [S + 'CAP %s NAK :%s' % (n, ' '.join(words[:k])), S + 'CAP %s NAK :%s' % (n, ' '.join(words[k:]))]
                 return [S + 'CAP %s NAK :%s' % (n, ' '.join(words))]
             if a and a[0] == 'END':
                 self.negotiating = False
@@ -1226,6 +1273,13 @@ class ConfServer(object):
             if mech == 'ECDSA-NIST256P-CHALLENGE' and rounds == 0:
                 self.auth = ('payload', mech, 1)
                 return ['AUTHENTICATE ' + base64.b64encode(bytes(r.randrange(256) for _ in range(32))).decode()]
+            if mech.startswith('SCRAM-') and rounds < 2:
+                # server-first, then server-final; the client's third message is the empty one
+                self.auth = ('payload', mech, rounds + 1)
+                if r.random() < 0.1:
+                    self.auth = None
+                    return [S + '904 %s :SASL authentication failed' % n]
+                return ['AUTHENTICATE ' + base64.b64encode(b'r=cs,s=c2FsdA==,i=4096' if rounds == 0 else b'v=c2ln').decode()]
             self.auth = None
             if self.auth_ok or r.random() < 0.3:
                 return [S + '900 %s %s!u@h acct :You are now logged in as acct' % (n, n), S + '903 %s :SASL authentication successful' % n]
@@ -1336,11 +1390,23 @@ def finding_capend_outstanding(run, bad):
                 return False
     return True
 
+def finding_req_after_end(run, bad):
+    """class of KNOWN_FINDINGS C08-req-after-end: a CAP REQ went out after CAP END before any welcome numeric
+    (predicate `req_after_end`), possibly followed by the stall it causes against a conformant server"""
+    preds = set(p for p, _ in bad)
+    if 'req_after_end' not in preds or not preds <= set(['req_after_end', 'progress']):
+        return False
+    return all(p != 'progress' or msg.startswith('conformant server has answered everything') for p, msg in bad)
+
 def classify_finding(run, bad):
     """known-finding classes (predicates on the script); None = not in any class"""
-    if finding_capend_outstanding(run, bad):
-        return 'C08-capend-outstanding'
-    return None
+    b1 = [b for b in bad if b[0] == 'cap_end_outstanding']
+    b2 = [b for b in bad if b[0] != 'cap_end_outstanding']
+    if b1 and not finding_capend_outstanding(run, b1):
+        return None
+    if b2 and not finding_req_after_end(run, b2):
+        return None
+    return 'C08-capend-outstanding' if b1 else ('C08-req-after-end' if b2 else None)
 
 def finding_status():
     """replay the listed witnesses on the real code"""
@@ -1355,6 +1421,13 @@ def finding_status():
                 if any(p == 'cap_end_outstanding' for p, _ in bad):
                     hits += 1
             out[f['id']] = (hits > 0, 'CAP END sent while a CAP REQ is unanswered after CAP NEW during SASL / CAP DEL + second CAP LS (%d of 2 witnesses reproduce)' % hits)
+        if f['id'] == 'C08-req-after-end':
+            w = f['witness']
+            run = run_impl(w['cfg'], [tuple(op) for op in w['ops']])
+            bad = safety_oracle(run.ops, run.obs, run.cfg)
+            last = run.last()
+            still = any(p == 'req_after_end' for p, _ in bad) and last.fsm == 'INIT_WAITING_MOTD'
+            out[f['id']] = (still, 'CAP NEW between the bot\'s CAP END and the welcome: CAP REQ sent, no second CAP END, final state %s' % last.fsm)
     return out
 
 class XCase(Case):
@@ -1378,7 +1451,7 @@ def make_case(run, kind, stuck=False):
     return c
 
 VIEW_STATS = {'conformant_scripts': 0, 'accepted_by_lean_relation': 0, 'server_moves_accepted': 0, 'outside_relation': 0,
-              'progress_conclusion_false_on_model': 0}
+              'progress_conclusion_false_on_model': 0, 'reopened_after_cap_end': 0}
 
 def fill_model(cases, prop=None):
     lines = []
@@ -1403,7 +1476,9 @@ def fill_model(cases, prop=None):
             VIEW_STATS['server_moves_accepted'] += int(q['acc'])
             if q['rej'] == '0':
                 VIEW_STATS['accepted_by_lean_relation'] += 1
-                if not (q['after'] == '1' or q['aborted'] == '1' or q['owes'] == '1'):
+                if q.get('reopened') == '1':
+                    VIEW_STATS['reopened_after_cap_end'] += 1
+                if not (q['after'] == '1' or q['aborted'] == '1' or q['owes'] == '1' or q.get('reopened') == '1'):
                     VIEW_STATS['progress_conclusion_false_on_model'] += 1
                     mo.append('PROGRESS-CONCLUSION-FALSE')
             else:
@@ -1451,9 +1526,9 @@ def explore(ctx, n_adv, n_conf, n_mixed, n_real=0, stream='c08'):
 RULE = ('seeded server scripts against a real irclib.Irc (Owner plugin loaded, world.testing False) with a recording stub driver: '
         '(adversarial) 1-40 lines over the alphabet CAP LS/ACK/NAK/NEW/DEL (single, multi-line, values, malformed), AUTHENTICATE, 900-908, '
         '001-005, 375/376/377/422, 432/433/437, PING/PONG, ERROR, NICK, plus Irc.reset(), biased towards plausible answers to what the bot '
-        'requested; (conformant) a sequential protocol-conformant server simulator answering the bot until nothing is owed; (mixed) the same with '
-        'adversarial lines injected; x SASL configurations {none, plain, external, external+plain, ecdsa(+key ok/bad/missing), scram(unavailable)} '
-        'x required x leaked class-level sasl x server password x nick alternates.  After every message the canonical observation (messages taken, '
+        'requested; (conformant) a sequential protocol-conformant server simulator (split ACK/NAK answers, CAP NEW / CAP DEL during the registration, SCRAM rounds) answering the bot until nothing is owed; (mixed) the same with '
+        'adversarial lines injected; x SASL configurations {none, plain, external, external+plain, ecdsa(+key ok/bad/missing), scram-* (library absent / stand-in library with drawn answers)} '
+        'x required x SASL settings edited at run time x server password x nick alternates.  After every message the canonical observation (messages taken, '
         'FSM state, capability sets, SASL fields, decoder, nick, afterConnect, exception class, REQUEST_CAPABILITIES, STS store) is compared with the model. '
         'A case is non-trivial when it has at least one tag; distinct = distinct (cfg, ops).')
 
